@@ -56,24 +56,30 @@ PARALLEL = True
 STRICT_HIDDEN_ENTRIES = True       # a hidden entry in the output directory is "anything other than ..."
 STRICT_REUSE_ELSEWHERE = True      # results reused from another directory do not make this directory's content "reused"
 
-RULE = ("(W) results objects with R records x M modules per record; module kinds: plain stub, stub with lazily "
-        "converted children (to_json/__json__/dataclass/Seq/nested chain, converted inside orjson), stub converting "
-        "children eagerly, None, TTAResults, SideloadedResults, HMMDetectionResults(RuleDetectionResults from the real "
-        "rule pipeline with a DynamicProfile); records with real CDS features, protoclusters, candidates, regions when a "
-        "real detection result is present. Quick: every ordered composition for R<=2, M<=2; thorough: every ordered "
-        "composition for R<=3, M<=2 and a seeded sample of compositions for M in 3..4. For each shape and each of "
-        "{write_to_file, dump_records} x {path target with pre-existing file}: a fault-free run, then EVERY conversion "
-        "event position x EVERY error kind (TypeError, ValueError, KeyError, un-serialisable object planted in the value "
-        "returned at p; plus rotating extra kinds: AttributeError, RecursionError, MemoryError, KeyboardInterrupt, "
-        ">64-bit int, lone surrogate, tuple key, reference cycle, child whose to_json raises); further target variants "
-        "(file object; target path missing) and every auxiliary function entry of selected shapes get the same "
-        "treatment; natural failures (raw dict instead of ModuleResults, to_json returning object()/2**70, to_json "
-        "raising) at every (record, module) index. (D) every subset of {log file, previous json, x.region001.gbk, stray "
-        "file, stray dir, index.html, hidden file, near-miss region names} x input in {absent, input/ dir, file named "
-        "input} x {fresh, reuse json inside, reuse json elsewhere} x logfile {unset, inside, outside} x cwd {neutral, "
-        "inside the stray dir} x {explicit name, name derived from input}; plus path missing / path is a file. "
-        "A case is non-trivial when a fault fired at a counted position, or the directory is non-empty; distinct by "
-        "(variant, shape, event class, position, kind) resp. by the full directory case.")
+RULE = ("(W) results objects with R records x M modules per record (record r carries the composition rotated by r); "
+        "module kinds: plain stub, stub with lazily converted children (to_json/__json__/dataclass/Seq/nested chain, "
+        "converted inside orjson through _base_convertor), stub converting children eagerly, None, TTAResults, "
+        "SideloadedResults, HMMDetectionResults(RuleDetectionResults from the real rule pipeline driven by a "
+        "DynamicProfile); records carry real CDS features, protoclusters, candidates and regions when a real detection "
+        "result is present. Quick: R=1 with every ordered composition for M<=2, R=2 with every composition for M<=1 and "
+        "4 seeded ordered pairs; thorough: R in 1..3 x (every ordered composition for M<=2 + 24 seeded compositions each "
+        "for M=3 and M=4). For each shape and each of {write_to_file, dump_records} x {path target with a pre-existing "
+        "file}: one fault-free run, then EVERY conversion event position 1..N x EVERY error kind (TypeError, ValueError, "
+        "KeyError, un-serialisable object planted in the value returned at p; plus extra kinds - one rotating with the "
+        "position in the quick tier, all in the thorough tier: AttributeError, RecursionError, MemoryError, "
+        "KeyboardInterrupt, >64-bit int, lone surrogate, tuple key, reference cycle, child whose to_json raises); the "
+        "target variants 'file object' and 'target path missing' get the same sweep (quick: one of them for every other "
+        "shape; thorough: all); every auxiliary function entry of 2 (quick) / 8 (thorough) representative shapes is hit "
+        "with one rotating (quick) / all three (thorough) exception kinds; natural failures (raw dict instead of "
+        "ModuleResults, to_json returning object() / 2**70 / a child that raises, to_json raising) at every (record, "
+        "module) index. (D) every subset of {log file, previous json, x.region001.gbk, stray file, stray dir, index.html, "
+        "hidden file, near-miss region names} x input in {absent, input/ dir, file named input} x {fresh, reuse json "
+        "inside, reuse json elsewhere} x logfile {unset, inside, outside} x cwd {neutral, inside the stray dir} x "
+        "{explicit name, name derived from the input}; plus path missing / path is a file (quick tier: all 64 subsets of "
+        "the first six elements with input absent / input dir; the two added elements singly next to <= 3 others; a "
+        "file named input next to <= 2 elements; fewer log/cwd/name combinations). "
+        "A case is non-trivial when a fault fired at a counted position, or the directory path is not an empty "
+        "directory; distinct by (variant, shape, event class, position, kind) resp. by the full directory case.")
 
 ASSUMPTIONS = [
     "A conversion failure is an exception raised at the entry of a Python function of the conversion, or an "
@@ -99,7 +105,7 @@ REQUIRED = ["op:bytes-unchanged", "op:failure-reported", "op:trace-clean-on-fail
 
 INJECT_MESSAGE = "vf-c20 injected conversion failure"
 QUICK_PAIRS_FOR_TWO_RECORDS = 4
-THOROUGH_SAMPLE_PER_SIZE = 40
+THOROUGH_SAMPLE_PER_SIZE = 24
 
 
 # --------------------------------------------------------------------------------------------
